@@ -79,6 +79,17 @@ class HSet:
         self.s = s if s is not None else set()
 
 
+class HGen:
+    """a generator expression that has not been consumed yet: its elements are evaluated when something iterates over it
+    (all of them at that moment), so that exceptions and side effects of the element expressions happen at the
+    consumer, as in CPython; a second iteration yields nothing"""
+    kind = "gen"
+
+    def __init__(self, thunk):
+        self.thunk = thunk
+        self.consumed = False
+
+
 class HExc:
     """exception instance"""
     kind = "exc"
